@@ -390,7 +390,7 @@ func checkC16(c *Ctx) {
 		rep     int
 	}
 	var cfgs []cfg
-	reps := c.Pick(4, 100)
+	reps := c.Pick(12, 100)
 	for rep := 0; rep < reps; rep++ {
 		for _, wn := range []int{1, 2, 4, 8, 16} {
 			for _, cl := range []string{"mixed", "10B"} {
